@@ -10,6 +10,10 @@
      browse.Browse.ServeHTTP            -> browse (scope, redirect, listing, archive walk)
      httpserver.hideCasketfile          -> hide_casketfile
 
+   A site with a path prefix (address host/pre): [q_path] is the path the handlers see, i.e. after
+   httpserver.trimPathPrefix (the harness computes it as the server does: TrimPrefix on the escaped
+   path, then url.ParseRequestURI); the static file server puts the prefix back in its redirects.
+
    Definitions only; proofs are in C02_Proofs.v, the property theorems in C02_Props.v. *)
 Require Import V.Lib V.GoPath V.Gen_C02 V.Gen_C02b.
 Open Scope N_scope.
@@ -187,9 +191,9 @@ Definition archived (fs : fsys) (hide : list bytes) (d : bytes) (k : node) : boo
 Definition archive_members (fs : fsys) (hide : list bytes) (d : bytes) : list node :=
   filter (archived fs hide d) (descendants fs d).
 
-Definition browse (fs : fsys) (hide pages : list bytes) (confs : list bconf)
+Definition browse (fs : fsys) (hide pages : list bytes) (prefix : bytes) (confs : list bconf)
            (meth : N) (req ae archive : bytes) : outcome :=
-  let next := serve_file fs hide pages [SLASH] meth req ae in
+  let next := serve_file fs hide pages prefix meth req ae in
   match find (fun bc => path_matches false req (b_scope bc)) confs with
   | None => next
   | Some bc =>
@@ -200,7 +204,7 @@ Definition browse (fs : fsys) (hide pages : list bytes) (confs : list bconf)
       else if (meth =? 2) || (meth =? 3) then Status 501
       else if negb (is_get_head meth) then next
       else
-        let u := match req with [] => [SLASH] | _ => req end in
+        let u := match req with [] => [SLASH] | _ => req end in   (* r.URL.Path: the site's path prefix is not put back *)
         if negb (ends_with_slash u)
         then Redirect 301 (http_redirect req (escape_path (trim_dslash u ++ [SLASH])))
         else
@@ -224,13 +228,13 @@ Definition hide_casketfile (abs_root abs_origin : bytes) : option bytes :=
   end.
 
 (* ---- a site: internal in front of browse in front of the static file server ---- *)
-Record site := { s_fs : fsys; s_hide : list bytes; s_pages : list bytes;
+Record site := { s_fs : fsys; s_hide : list bytes; s_pages : list bytes; s_prefix : bytes;
                  s_internal : list bytes; s_browse : list bconf }.
 Record request := mkreq { q_meth : N; q_path : bytes; q_ae : bytes; q_archive : bytes }.
 
 Definition handle (s : site) (r : request) : outcome :=
   if internal_blocks (s_internal s) (q_path r) then Status 404
-  else browse (s_fs s) (s_hide s) (s_pages s) (s_browse s) (q_meth r) (q_path r) (q_ae r) (q_archive r).
+  else browse (s_fs s) (s_hide s) (s_pages s) (s_prefix s) (s_browse s) (q_meth r) (q_path r) (q_ae r) (q_archive r).
 
 (* ---- the fixture the harness writes to disk (Gen_C02b is regenerated from the same table) ---- *)
 Definition fixture_fs : fsys :=
@@ -239,10 +243,10 @@ Definition fixture_fs : fsys :=
    paths the instance was started with), then the paths of the `internal` directives *)
 Definition site_hide (abs_root abs_origin : bytes) : list bytes :=
   match hide_casketfile abs_root abs_origin with Some h => [h] | None => [] end ++ gen_c02_internal.
-(* scope = "" : no browse directive *)
-Definition mksite (abs_root abs_origin scope : bytes) (types : list bytes) : site :=
+(* prefix = the path of the site's address ("/" if none); scope = "" : no browse directive *)
+Definition mksite (abs_root abs_origin prefix scope : bytes) (types : list bytes) : site :=
   {| s_fs := fixture_fs; s_hide := site_hide abs_root abs_origin; s_pages := gen_default_index_pages;
-     s_internal := gen_c02_internal;
+     s_prefix := prefix; s_internal := gen_c02_internal;
      s_browse := match scope with [] => [] | _ => [{| b_scope := scope; b_types := types |}] end |}.
 
 (* ---- observations ---- *)
@@ -255,9 +259,9 @@ Record obs := mkobs { o_status : N; o_loc : bytes; o_ce : bytes; o_kind : N;
 Inductive case :=
 | CSkip                                   (* net/http rejected the request line; nothing to judge *)
 | CReq (s : site) (r : request) (o : obs)
-(* a site with a path prefix: the server's prefix trimming (url.Parse of the escaped rest) is not
-   modelled; [r] carries the path the handlers saw as computed by the harness, and only the
-   executable property is judged *)
+(* a request that did not reach the site's handlers (a site with a path prefix that the request
+   path does not start with: the server answers "no such site"): only the executable property
+   is judged *)
 | CContract (s : site) (r : request) (o : obs).
 
 Definition mem_N (l : list N) (x : N) : bool := existsb (N.eqb x) l.
